@@ -9,20 +9,19 @@ import re
 
 from . import common as C
 
-THEOREMS = ["index_exact", "index_const_exact", "subslice_exact", "substring_exact_partial", "substring_open_counterexample",
-            "substring_open_partial", "makeslice_exact", "slice_to_array_exact", "map_store_exact", "quo_exact", "rem_exact",
-            "close_counterexample", "close_exact_partial", "iface_eq_exact", "assert_exact", "checks_exact_partial",
-            "checks_exact_counterexample", "recover_depth_arith", "recover_depth", "recover_depth_forwarding_counterexample",
-            "emu_replaced", "ref_replaced", "emu_builtin", "ref_builtin", "emu_forward", "ref_forward", "emu_goexit", "ref_goexit",
-            "defer_refines_counterexample_replaced", "defer_refines_counterexample_builtin", "defer_refines_counterexample_forward",
-            "defer_refines_counterexample_goexit", "leaf_sim", "defer_refines_partial"]
+DEFER_THEOREMS = []
+
+THEOREMS = ["index_exact", "index_const_exact", "subslice_exact", "substring_exact", "makeslice_exact", "slice_to_array_exact",
+            "map_store_exact", "quo_exact", "rem_exact", "send_exact", "close_exact", "iface_eq_exact", "assert_exact", "checks_exact",
+            "close_old_counterexample", "substring_old_counterexample",
+            "recover_depth_arith", "recover_depth"] + DEFER_THEOREMS
 
 # ------------------------------------------------------------------------------------------------------------
 # mini-language scripts (GV.Model.Defer)
 # ------------------------------------------------------------------------------------------------------------
 
 WITNESSES = {
-    # id: (script, signature)
+    # id: (script, class) — witnesses of the four repaired defect classes, kept as regression inputs
     "replaced": ("u:dd1=k0,dd2=k0,p1|u:r|u:p2", "replaced-panic-recovered"),
     "triple": ("u:dd1=k0,dd2=k0,p1|u:r|u:dd3=k0,p2|u:p3", "replaced-panic-recovered"),
     "builtin": ("u:dd1=k0,R,p1|u:r", "defer-recover-builtin"),
@@ -113,15 +112,8 @@ def script_features(script):
 
 
 def script_signature(script):
-    f = script_features(script)
-    if "goexit" in f:
-        return "goexit-in-callee-with-defer"
-    if "builtin" in f:
-        return "defer-recover-builtin"
-    if "pwrap" in f:
-        return "defer-via-forwarding-wrapper"
-    if "panic" in f:
-        return "replaced-panic-recovered"
+    """round 1 recorded four defect classes here (Goexit below frames with defer, resurrected replaced panic,
+    `defer recover()`, forwarding-method frames); all four are repaired, so no divergence of a script is known."""
     return None
 
 
@@ -238,15 +230,7 @@ def check_ops(chk, tier):
     model = C.run_driver("C08", mops)
     spec = C.run_driver("C08", sops)
 
-    def sig(op, a, c):
-        p = op.split()
-        if p[1] == "mclose" and p[2] == "nil" and a == "ok" and c == "panic":
-            return "C08 check close nil-channel no-panic"
-        if p[1] == "msubstring" and p[4] == "-" and int(p[3]) > int(p[2]) and a != "panic" and c == "panic":
-            return "C08 check substring open-high low>len no-panic"
-        return None
-
-    chk.compare("prelude-checks", mops, impl, model, spec=spec, signature=sig,
+    chk.compare("prelude-checks", mops, impl, model, spec=spec,
                 kind=lambda o, c: "%s:%s" % (o.split()[1][1:], "panic" if c == "panic" else "ok"))
 
 
@@ -616,10 +600,13 @@ func findings(a, b, c int) {
 		}
 		return p[mod(b, 3)]
 	})
-	try("shift", a, b, c, func() int {
+	try("shift", a, b, c, func() int { // negative counts: documented difference, not generated
 		n := a
 		if n > 20 {
 			n = 20
+		}
+		if n < 0 {
+			n = -n
 		}
 		return 1 << n
 	})
@@ -661,13 +648,8 @@ func main() {
 
 # known divergences of compiled check programs: (kind, js class, go class) -> signature
 PROG_FINDINGS = {
-    ("close", "ok", "panic:rt:close of nil channel"): "C08 program close nil-channel no-panic",
-    # the first close(nil) marks the shared $chanNil closed: later ones panic with the wrong message
-    ("close", "panic:rt:close of closed channel", "panic:rt:close of nil channel"): "C08 program close nil-channel no-panic",
-    ("nilparr_idx", "ok", "panic:rt:invalid memory address or nil pointer dereference"): "C08 program nil-array-pointer-index no-panic",
-    ("str_lo", "ok", "panic:rt:slice bounds out of range"): "C08 program string-slice-open-high low>len no-panic",
-    ("shift", "ok", "panic:rt:negative shift amount"): "C08 program negative-shift no-panic",
-    ("mapkey", "panic:error-not-runtime.Error", "panic:rt:hash of unhashable type"): "C08 program unhashable-map-key not-runtime.Error",
+    # all value-level divergences recorded in round 1 are repaired (close(nil), nil *[N]T index, s[low:], unhashable key);
+    # a negative shift count is a documented, permitted difference and is not generated any more
 }
 
 
@@ -1011,13 +993,16 @@ PROG_WITNESS = {
     # id: (body of main-called function, signature)
     "blocked28": ('println(scenario(28))', "C08 program recover-after-blocking-deferred-call remaining-deferred-skipped"),
     "blocked29": ('println(scenario(29))', "C08 program recover-after-blocking-deferred-call remaining-deferred-skipped"),
-    "replaced": ('defer func() { show("replaced outer", recover()) }()\n\tdefer func() { panic("second") }()\n\tpanic("first")',
-                 "C08 program replaced-panic-recovered first-panic-resumes"),
-    "builtin": ('defer func() { show("outer", recover()) }()\n\tdefer recover()\n\tpanic("x")', "C08 program defer-recover-builtin recovers"),
-    "ptrwrap": ('defer func() { show("outer", recover()) }()\n\tp := new(T)\n\tdefer p.M()\n\tpanic("x")',
-                "C08 program recover-in-value-method-deferred-through-pointer returns-nil"),
+    # regression programs of the repaired defects (no signature: a divergence is a violation)
+    "replaced": ('defer func() { show("replaced outer", recover()) }()\n\tdefer func() { panic("second") }()\n\tpanic("first")', None),
+    "builtin": ('defer func() { show("outer", recover()) }()\n\tdefer recover()\n\tpanic("x")', None),
+    "ptrwrap": ('defer func() { show("outer", recover()) }()\n\tp := new(T)\n\tdefer p.M()\n\tpanic("x")', None),
+    "promoted": ('defer func() { show("outer", recover()) }()\n\tvar i interface{ M() } = struct{ T }{T(1)}\n\tdefer i.M()\n\tpanic("x")', None),
+    "goexit-panic": ('c := make(chan int)\n\tgo func() {\n\t\tdefer close(c)\n\t\tdefer func() { show("g outer", recover()) }()\n\t\tfunc() {\n'
+                     '\t\t\tdefer func() { helper() }()\n\t\t\tdefer func() {\n\t\t\t\tdefer func() { show("inner", recover()) }()\n\t\t\t\tpanic("in goexit")\n\t\t\t}()\n'
+                     '\t\t\truntime.Goexit()\n\t\t}()\n\t\tprintln("after goexit")\n\t}()\n\t<-c', None),
     "goexit": ('c := make(chan int)\n\tgo func() {\n\t\tdefer close(c)\n\t\tfunc() {\n\t\t\tdefer println("callee deferred")\n\t\t\truntime.Goexit()\n\t\t}()\n'
-               '\t\tprintln("after goexit")\n\t}()\n\t<-c', "C08 program goexit-in-callee-with-defer caller-continues"),
+               '\t\tprintln("after goexit")\n\t}()\n\t<-c', None),
 }
 
 
